@@ -277,7 +277,7 @@ impl<const D: bool> SimShim<D> {
             .iter()
             .map(|u| match u {
                 Unit::Rows(r) => r.cols.iter().map(mk_column).collect(),
-                Unit::Count { .. } => Vec::new(),
+                Unit::Count { .. } | Unit::BulkRows { .. } => Vec::new(),
             })
             .collect();
         let n = p.units.len();
@@ -307,6 +307,22 @@ impl<const D: bool> SimShim<D> {
                         return Ok(());
                     }
                     w = api!("complete_one", w.complete_one(*affected, *last_id))?;
+                }
+                Unit::BulkRows { n } => {
+                    let mut rw = api!("start", w.start(&colsets[i]))?;
+                    let mut res = Ok(());
+                    for _ in 0..*n {
+                        res = rw.end_row();
+                        if res.is_err() {
+                            break;
+                        }
+                    }
+                    api!("end_row (bulk)", res)?;
+                    if last {
+                        api!("finish", rw.finish())?;
+                        return Ok(());
+                    }
+                    w = api!("finish_one", rw.finish_one())?;
                 }
                 Unit::Rows(r) => {
                     let mut rw = api!("start", w.start(&colsets[i]))?;
